@@ -195,7 +195,7 @@ def classify(g, unit, diags):
                 break
         if marker is None and (('postcondition' in msg and clause is None) or ('precondition' in msg and callee_clause is None)):
             # the failed clause is a trait-level `ensures` in a prelude (e.g. codeq::Decode::decode): its marker sits on the secondary span
-            for s_ in spans:
+            for s_ in sorted(spans, key=lambda q: (q['line_end'] - q['line_start'], q['line_start'])):   # the narrowest span names the failing conjunct
                 if s_.get('is_primary'):
                     continue
                 for ln_ in range(s_['line_start'], s_['line_end'] + 1):
